@@ -409,3 +409,171 @@ def r3_contract():
     c.loop_select = loop_select
     c.stmt_hooks = [(lambda n: isinstance(n, ast.Continue), on_continue)]
     return c
+
+
+# ------------------------------------------------------------ R0: the per-rank table written by every rank and read back by rank 0
+def _assigns_name(s, name):
+    return isinstance(s, ast.Assign) and len(s.targets) == 1 and isinstance(s.targets[0], ast.Name) and s.targets[0].id == name
+
+
+def region_r0_writer(fnode):
+    for s in fnode.body:
+        if _assigns_name(s, "out_arr"):
+            return [s]
+    return None
+
+
+def region_r0_reader(fnode):
+    for s in ast.walk(fnode):
+        if isinstance(s, ast.If):
+            start = end = None
+            for k, b in enumerate(s.body):
+                if _assigns_name(b, "data") and start is None:
+                    start = k
+                if _assigns_name(b, "aifeyn_min") and start is not None:
+                    end = k
+            if start is not None and end is not None:
+                return s.body[start:end + 1]
+    return None
+
+
+def r0_writer_contract():
+    """out_arr has one row per unique function of this rank and the columns  DL | parameter columns | -logL | codelen | aifeyn  (in this order)."""
+    NPR, K = z3.Int("NP"), z3.Int("K")
+
+    def arr(name, n):
+        def mk(eng, st):
+            v = eng.fresh(T.arr(T.float), name, st)
+            st.heap[v.addr].len = n
+            return v
+        return mk
+
+    def mk_pm(eng, st):
+        v = eng.fresh(T.arr2(T.float), "params_min", st)
+        st.heap[v.addr].rows, st.heap[v.addr].cols = NPR, K
+        return v
+
+    def requires(S, a):
+        return [("sizes", z3.And(NPR >= 0, K >= 0))]
+
+    def ensures(S, a, res):
+        O = S.st.heap[S.var("out_arr").addr]
+        PM = S.st.heap[a["params_min"].addr]
+        r, c = z3.Int(fresh_name("r!sk")), z3.Int(fresh_name("c!sk"))
+        g = lambda nm: as_float(S.seq(a[nm]).get(r))
+        inr = z3.And(0 <= r, r < NPR)
+        return [("one row per unique function of this rank, K + 4 columns", z3.And(O.rows == NPR, O.cols == K + 4)),
+                ("column 0 is the description length", z3.Implies(inr, fsame(as_float(O.get(r, z3.IntVal(0))), g("DL_min")))),
+                ("columns 1..K are the parameter columns", z3.Implies(z3.And(inr, 0 <= c, c < K), fsame(as_float(O.get(r, 1 + c)), as_float(PM.get(r, c))))),
+                ("the last three columns are -logL, codelen, aifeyn", z3.Implies(inr, z3.And(fsame(as_float(O.get(r, K + 1)), g("negloglike_min")), fsame(as_float(O.get(r, K + 2)), g("codelen_min")),
+                                                                                             fsame(as_float(O.get(r, K + 3)), g("aifeyn_min")))))]
+
+    c = Contract("main", {"DL_min": arr("DL_min", NPR), "params_min": mk_pm, "negloglike_min": arr("negloglike_min", NPR), "codelen_min": arr("codelen_min", NPR),
+                          "aifeyn_min": arr("aifeyn_min", NPR)}, requires=requires, ensures=ensures, region=region_r0_writer, raises=lambda S, a, e: z3.BoolVal(False))
+    c.region_name = "R0 writer: layout of the per-rank table"
+    return c
+
+
+def r0_reader_contract():
+    """rank 0 reads the joined table back with the same column layout (K = number of parameter columns of the match table)."""
+    NR, K = z3.Int("NR"), z3.Int("K")
+    FILE = z3.Function("combine_table", z3.IntSort(), z3.IntSort(), z3.RealSort())
+
+    def setup(eng, st, args):
+        eng.models["np.genfromtxt"] = lambda e, s, a, k, node: s.alloc(H2D(NR, K + 4, lambda r, c: VFloat(FILE(r, c)), etype=T.real))
+        from pyvc.values import HObj
+        st.env["likelihood"] = st.alloc(HObj("Likelihood", {"out_dir": VLabel(z3.Const("out_dir", Label))}))
+        st.env["prefix"] = VLabel(z3.Const("prefix", Label))
+        st.env["comp"] = VInt(z3.Int("comp"))
+        pr = eng.fresh(T.arr2(T.real), "params", st)
+        st.heap[pr.addr].cols = K
+        st.env["params"] = pr
+        st.assume(z3.And(NR >= 2, K >= 0))
+
+    def ensures(S, a, res):
+        st = S.st
+        r, c = z3.Int(fresh_name("r!sk")), z3.Int(fresh_name("c!sk"))
+        inr = z3.And(0 <= r, r < NR)
+        PM = st.heap[S.var("params_min").addr]
+        g = lambda nm: as_float(S.seq(S.var(nm)).get(r)).val
+        return [("one entry per row of the table", z3.And(S.seq(S.var("DL_min")).len == NR, PM.rows == NR, PM.cols == K)),
+                ("DL = column 0, parameters = columns 1..K, -logL / codelen / aifeyn = the last three columns",
+                 z3.Implies(inr, z3.And(g("DL_min") == FILE(r, z3.IntVal(0)), z3.Implies(z3.And(0 <= c, c < K), as_float(PM.get(r, c)).val == FILE(r, 1 + c)),
+                                        g("negloglike_min") == FILE(r, K + 1), g("codelen_min") == FILE(r, K + 2), g("aifeyn_min") == FILE(r, K + 3))))]
+
+    c = Contract("main", {}, ensures=ensures, setup=setup, region=region_r0_reader, raises=lambda S, a, e: z3.BoolVal(False))
+    c.region_name = "R0 reader: layout of the joined table"
+    return c
+
+
+# ------------------------------------------------------------ R4: the rows of final_<n>.dat
+def region_r4(fnode):
+    """body of the loop that writes one row of the final table per sorted entry"""
+    for s in ast.walk(fnode):
+        if isinstance(s, ast.For) and any(isinstance(n, ast.Call) and getattr(n.func, "attr", None) == "writerow" for n in ast.walk(s)):
+            return s.body
+    return None
+
+
+def r4_contract():
+    """Iteration i appends exactly one row to final_<n>.dat: rank i, then function, description length, relative probability, -logL, codelen, aifeyn and the
+    parameter columns of the SAME sorted position i (consecutive ranks from 0 in the order of the sorted description lengths)."""
+    NS, K = z3.Int("nsorted"), z3.Int("K")
+
+    def arr(name, etype=T.float):
+        def mk(eng, st):
+            v = eng.fresh(T.arr(etype) if etype.kind != "label" else T.list(etype), name, st)
+            st.heap[v.addr].len = NS
+            return v
+        return mk
+
+    def mk_ps(eng, st):
+        v = eng.fresh(T.arr2(T.float), "params_sort", st)
+        st.heap[v.addr].rows, st.heap[v.addr].cols = NS, K
+        return v
+
+    def setup(eng, st, args):
+        from pyvc.values import HObj, VFn, Fn
+        st.env["likelihood"] = st.alloc(HObj("Likelihood", {"out_dir": VLabel(z3.Const("out_dir", Label)), "final_prefix": VLabel(z3.Const("final_prefix", Label))}))
+        st.env["comp"] = VInt(z3.Int("comp"))
+        st.env["Nfuncs"] = VInt(10)
+        pr = eng.fresh(T.arr2(T.real), "params", st)
+        st.heap[pr.addr].cols = K
+        st.env["params"] = pr
+        st.env["ptab"] = st.alloc(HObj("PrettyTable", {}))
+        eng.methods["add_row"] = lambda e, s, recv, a, k, node: __import__("pyvc.values", fromlist=["VNone"]).VNone()
+
+    def requires(S, a):
+        return [("0 <= i < number of sorted rows", z3.And(0 <= a["i"].t, a["i"].t < NS, K >= 0))]
+
+    def ensures(S, a, res):
+        st = S.st
+        i = a["i"].t
+        wr = st.ghost.get("written", ())
+        rows = st.ghost.get("csv_rows", ())
+        out = [("exactly one row is appended to exactly one file", z3.BoolVal(len(rows) == 1 and len(wr) == 1 and wr[0][1] == "a")),
+               ("... as one line", (wr[0][2] == 1) if len(wr) == 1 else z3.BoolVal(False))]
+        if len(rows) != 1:
+            return out
+        R = st.heap[rows[0].addr]
+        if not (R.note and R.note[0] == "listconcat"):
+            return out + [("the row is the seven leading fields followed by the parameter columns", z3.BoolVal(False))]
+        head, tail = R.note[1], R.note[2]
+        j = z3.Int(fresh_name("j!sk"))
+        PS = st.heap[a["params_sort"].addr]
+        f = lambda nm: S.seq(a[nm]).get(i)
+        out += [("seven leading fields then one field per parameter column", z3.And(head.len == 7, tail.len == K)),
+                ("field 0 is the rank i (consecutive ranks from 0)", head.get(z3.IntVal(0)).t == i),
+                ("field 1 is the function of sorted position i", head.get(z3.IntVal(1)).t == f("fcn_min_sort").t),
+                ("fields 2-6 are DL, Prel, -logL, codelen, aifeyn of sorted position i",
+                 z3.And(fsame(as_float(head.get(z3.IntVal(2))), as_float(f("DL_sort"))), fsame(as_float(head.get(z3.IntVal(3))), as_float(f("Prel"))),
+                        fsame(as_float(head.get(z3.IntVal(4))), as_float(f("negloglike_sort"))), fsame(as_float(head.get(z3.IntVal(5))), as_float(f("codelen_sort"))),
+                        fsame(as_float(head.get(z3.IntVal(6))), as_float(f("aifeyn_sort"))))),
+                ("the parameter fields are row i of the sorted parameter table", z3.Implies(z3.And(0 <= j, j < K), fsame(as_float(tail.get(j)), as_float(PS.get(i, j)))))]
+        return out
+
+    c = Contract("main", {"i": T.int, "DL_sort": arr("DL_sort"), "Prel": arr("Prel"), "negloglike_sort": arr("negloglike_sort"), "codelen_sort": arr("codelen_sort"),
+                          "aifeyn_sort": arr("aifeyn_sort"), "fcn_min_sort": arr("fcn_min_sort", T.label), "params_sort": mk_ps},
+                 requires=requires, ensures=ensures, setup=setup, region=region_r4, raises=lambda S, a, e: z3.BoolVal(False))
+    c.region_name = "R4: one row of the final table per sorted entry"
+    return c
